@@ -483,18 +483,17 @@ func extractBindings(rule ast.Clause, uf unionfind.UnionFind) []Binding {
 }
 
 func collectVars(rule ast.Clause) []ast.Variable {
-	seen := make(map[string]ast.Variable)
-	addFromAtom := func(a ast.Atom) {
-		for _, arg := range a.Args {
-			if v, ok := arg.(ast.Variable); ok && v.Symbol != "_" {
-				seen[v.Symbol] = v
-			}
-		}
-	}
-	addFromAtom(rule.Head)
+	// All variables of the head and of every premise: also those that occur only
+	// in negated atoms, (in)equalities or inside function applications.
+	vars := make(map[ast.Variable]bool)
+	ast.AddVars(rule.Head, vars)
 	for _, p := range rule.Premises {
-		if a, ok := p.(ast.Atom); ok {
-			addFromAtom(a)
+		ast.AddVars(p, vars)
+	}
+	seen := make(map[string]ast.Variable)
+	for v := range vars {
+		if v.Symbol != "_" {
+			seen[v.Symbol] = v
 		}
 	}
 	out := make([]ast.Variable, 0, len(seen))
